@@ -462,6 +462,10 @@ def plan_layout(tier, seed, nshards=64):
         shards.append({"kind": "skew", "mod": 16, "rem": r})
     for r in range(16):
         shards.append({"kind": "groups", "mod": 16, "rem": r})
+    for r in range(8):
+        shards.append({"kind": "wallgroups", "mod": 8, "rem": r})
+    for r in range(18):
+        shards.append({"kind": "manypairs", "mod": 18, "rem": r})
     if tier == "thorough":
         for n0 in range(1, 201, 4):
             shards.append({"kind": "sweep", "ns": list(range(n0, min(201, n0 + 4)))})
@@ -562,6 +566,44 @@ def family_cases(kind, part, nparts):
                         labels = [(1000, w) for w in ws] + [(1000 + d, 12)]
                         for ci, c in enumerate(({}, {"minPos": None}, {"minPos": None, "nodeSpacing": 0})):
                             yield {"labels": labels, "opts": dict(c), "family": [k, wide, d, ci]}
+    elif kind == "wallgroups":
+        # a group of labels whose targets lie at or beyond a bound (it ends up stacked against the wall) and a second,
+        # larger or equal group a little further inside that collides with it: the block that contains the wall is absorbed
+        for n1, n2 in ((7, 10), (9, 14), (8, 8), (12, 5)):
+            for w in (4, 12):
+                for d in range(0, 130, 5):
+                    for side in ("lower", "upper"):
+                        idx += 1
+                        if idx % nparts != part:
+                            continue
+                        if side == "lower":
+                            labels = [(-30 + (i % 3), w) for i in range(n1)] + [(-30 + d + (i % 2), w) for i in range(n2)]
+                            opts = {"minPos": 0}
+                        else:
+                            labels = [(1030 - (i % 3), w) for i in range(n1)] + [(1030 - d - (i % 2), w) for i in range(n2)]
+                            opts = {"minPos": None, "maxPos": 1000}
+                        yield {"labels": labels, "opts": dict(opts, algorithm="none"), "family": [n1, w, d, 0]}
+    elif kind == "manypairs":
+        # a long row: p pairs of slightly overlapping labels of irregular widths spread along the axis (hundreds of merges in
+        # one solve), optionally one label whose target lies very far outside the lower bound, and a last label that pokes
+        # out of an upper bound that leaves room to spare
+        for p in (60, 140, 300):
+            for far in (None, -3.0e6, -4.0e4):
+                for poke in (2, 0.75):
+                    idx += 1
+                    if idx % nparts != part:
+                        continue
+                    specs = [] if far is None else [(far, 10)]
+                    x = 100
+                    for i in range(p):
+                        w1, w2 = 8 + (i * 7) % 5, 9 + (i * 3) % 4
+                        need = (w1 + w2) / 2.0 + 3
+                        specs.append((x, w1))
+                        specs.append((x + need - (2.5 + ((i * 37) % 29) / 8.0), w2))
+                        x += 45 + (i * 11) % 7
+                    specs.append((x + 40, 10))
+                    yield {"labels": specs, "opts": {"minPos": 0, "maxPos": x + 40 + 5 - poke, "nodeSpacing": 3, "density": 1},
+                           "family": [p, 0, poke, 0]}
     else:
         for n1, n2 in ((20, 20), (12, 28), (33, 3)):
             for sp in (0, 1, 3):
@@ -747,7 +789,7 @@ def run_layout_shard(prop, shard):
                                   order=(10, len(labels), idx, ci))
         acc.sample({"labels": labels, "opts": o, "direct": True})
         return acc
-    if shard["kind"] in ("skew", "groups"):
+    if shard["kind"] in ("skew", "groups", "wallgroups", "manypairs"):
         gen = family_cases(shard["kind"], shard["rem"], shard["mod"])
     elif shard["kind"] == "minisweep":
         gen = minisweep_cases(shard["ns"])
@@ -760,7 +802,7 @@ def run_layout_shard(prop, shard):
         acc.states += 1
         acc.trans += 1
         acc.counters["sweep_cases"] += 1
-        if shard["kind"] in ("skew", "groups"):
+        if shard["kind"] in ("skew", "groups", "wallgroups", "manypairs"):
             acc.counters["family_%s_cases" % shard["kind"]] += 1
         if info.nontrivial:
             acc.nontriv += 1
